@@ -46,7 +46,8 @@ fn main() {
         )),
         _ => Box::new(std::io::BufReader::new(std::io::stdin())),
     };
-    let stdout = std::io::stdout();
+    // results go to the file named by the third argument when given (code under test may print to stdout)
+    let outfile = args.get(3).map(|p| std::fs::File::create(p).expect("create output"));
     // Big stack: deep recursion in code under test on deep inputs must not kill the harness
     // except where the stack bound itself is what is being checked (front uses its own threads).
     let cmd = cmd.to_string();
@@ -80,10 +81,20 @@ fn main() {
                         std::process::exit(2);
                     }
                 };
-                let mut o = stdout.lock();
-                serde_json::to_writer(&mut o, &res).unwrap();
-                o.write_all(b"\n").unwrap();
-                o.flush().unwrap();
+                let mut line = serde_json::to_vec(&res).unwrap();
+                line.push(b'\n');
+                match &outfile {
+                    Some(f) => {
+                        let mut f = f;
+                        f.write_all(&line).unwrap();
+                        f.flush().unwrap();
+                    }
+                    None => {
+                        let mut o = std::io::stdout().lock();
+                        o.write_all(&line).unwrap();
+                        o.flush().unwrap();
+                    }
+                }
             }
         })
         .unwrap();
